@@ -69,8 +69,7 @@ impl BerHeader {
                 // > 30
                 let mut n = 0 as Tag;
                 loop {
-                    // @todo: check size
-                    let t = i[current];
+                    let t = *i.get(current).ok_or(Err::Incomplete(Needed::Unknown))?;
                     current += 1;
                     n = (n << 7) | ((t & 0x7f) as Tag);
                     if t & 0x80 == 0 {
@@ -84,7 +83,7 @@ impl BerHeader {
         // Parse length offset
         // X.690 8.3.1.4-8.3.1.5
         // @todo: Indefinite length
-        let n = i[current];
+        let n = *i.get(current).ok_or(Err::Incomplete(Needed::Unknown))?;
         current += 1;
         let length = if n & 0x80 == 0 {
             // Short form, X.690 pp 8.3.1.4
@@ -93,7 +92,8 @@ impl BerHeader {
             // Long form, X.690 pp 8.1.3.5
             let mut ln = 0;
             for _ in 0..n & 0x7f {
-                ln = (ln << 8) + (i[current] as usize);
+                ln =
+                    (ln << 8) + (*i.get(current).ok_or(Err::Incomplete(Needed::Unknown))? as usize);
                 current += 1;
             }
             ln
